@@ -51,27 +51,53 @@ class Cmp:
         return impl_sym == ref_sym
 
     def emit(self, E, who, syms):
-        """who in ('ref','impl'); returns None if fine, or a mismatch description"""
+        """who in ('ref','impl'); returns None if fine, or a mismatch description.
+        A reference symbol ('opt', s) may be matched by s or skipped (don't-care output)."""
         side, q = self.get(E)
         q = list(q)
         for s in syms:
-            if q and side != who:
-                head = q.pop(0)
-                a, b = (s, head) if who == 'impl' else (head, s)
-                if not self.match(a, b):
-                    self.put(E, side, q)
-                    return 'implementation produced %s where the reference produces %s' % (a, sorted(b) if isinstance(b, frozenset) else b)
-            else:
-                side = who
-                q.append(s)
-                if len(q) > MAXLAG:
-                    self.put(E, side, q[:MAXLAG])
-                    return 'lag between implementation and reference exceeds %d symbols (%s ahead: %s)' % (MAXLAG, side, q[:6])
+            done = False
+            while q and side != who and not done:
+                head = q[0]
+                if who == 'impl':
+                    # q holds reference symbols
+                    if isinstance(head, tuple) and head[0] == 'opt':
+                        q.pop(0)
+                        if s == head[1]:
+                            done = True
+                        continue
+                    q.pop(0)
+                    if not self.match(s, head):
+                        self.put(E, side, q)
+                        return 'implementation produced %s where the reference produces %s' % (s, sorted(head) if isinstance(head, frozenset) else head)
+                    done = True
+                else:
+                    # q holds implementation symbols, s is a reference symbol
+                    if isinstance(s, tuple) and s[0] == 'opt':
+                        if head == s[1]:
+                            q.pop(0)
+                        done = True
+                        continue
+                    q.pop(0)
+                    if not self.match(head, s):
+                        self.put(E, side, q)
+                        return 'implementation produced %s where the reference produces %s' % (head, sorted(s) if isinstance(s, frozenset) else s)
+                    done = True
+            if done:
+                continue
+            side = who
+            q.append(s)
+            if len(q) > MAXLAG:
+                self.put(E, side, q[:MAXLAG])
+                return 'lag between implementation and reference exceeds %d symbols (%s ahead: %s)' % (MAXLAG, side, q[:6])
         self.put(E, side if q else 'ref', q)
         return None
 
     def empty(self, E):
-        return not self.get(E)[1]
+        side, q = self.get(E)
+        if side == 'ref':
+            q = [s for s in q if not (isinstance(s, tuple) and s[0] == 'opt')]
+        return not q
 
     def describe(self, E):
         side, q = self.get(E)
@@ -115,4 +141,33 @@ def rfc_receiver(state, sym):
         if sym == CR:
             return 'MIDCR', [CR], None
         return 'MID', [CR, DOT if sym == DOT else OTHER], None
+    raise ValueError(state)
+
+
+# ---------------------------------------------------------------- inbound DATA decoder (C05)
+# Reference written from RFC 5321 section 4.5.2 as qualified by property C05.  Returns
+# (state', outputs, verdict) with verdict in (None, 'REJECT', 'END').  Output alphabet x DOT CR NL.
+# Don't-care: a line ". CR <non-LF>" (no conforming sender produces it): the dot may be kept.
+def smtp_decoder(state, sym):
+    if state == 'BOL':
+        if sym == DOT: return 'BOLDOT', [], None
+        if sym == CR: return 'MIDCR', [], None
+        if sym == LF: return 'BOL', [], 'REJECT'
+        return 'MID', [OTHER], None
+    if state == 'BOLDOT':
+        if sym == CR: return 'BOLDOTCR', [], None
+        if sym == LF: return 'BOL', [], 'REJECT'
+        return 'MID', [sym], None
+    if state == 'BOLDOTCR':
+        if sym == LF: return 'END', [], 'END'
+        if sym == CR: return 'MIDCR', [('opt', DOT), CR], None
+        return 'MID', [('opt', DOT), CR, sym], None
+    if state == 'MID':
+        if sym == CR: return 'MIDCR', [], None
+        if sym == LF: return 'MID', [], 'REJECT'
+        return 'MID', [sym], None
+    if state == 'MIDCR':
+        if sym == LF: return 'BOL', ['NL'], None
+        if sym == CR: return 'MIDCR', [CR], None
+        return 'MID', [CR, sym], None
     raise ValueError(state)
